@@ -78,6 +78,13 @@ HEAD = ["SCHEMA ex;", "@@CONSTANTS@@", STATEMENTS, "FUNCTION f1(p : NUMBER) : NU
         "  a7 : NUMBER;", "  a3 : STRING;", "  a9 : LIST [2:?] OF INTEGER;"]
 
 
+def statement_host():
+    """a valid schema with every statement kind, a QUERY and an interval: base text for the single-token mutants of
+    spec/TokMut.tla (the parser opens scopes of its own for QUERY, REPEAT and ALIAS)"""
+    return ("SCHEMA ex;\n" + STATEMENTS + "ENTITY host;\n  a1 : INTEGER;\n  a9 : LIST [2:?] OF INTEGER;\nDERIVE\n  d1 : INTEGER := stm(a1, a9);\n"
+            "WHERE\n  wq : SIZEOF(QUERY(x <* a9 | x > a1)) = 0;\n  wi : {1 <= a1 < 10};\nEND_ENTITY;\nEND_SCHEMA;\n")
+
+
 def run_exppp(bdir, src, d, opts):
     mkdir(d)
     p = subprocess.run([os.path.join(bdir, "bin", "exppp")] + opts + [src], cwd=d, stdout=subprocess.PIPE, stderr=subprocess.PIPE, text=True, timeout=120)
